@@ -97,6 +97,9 @@ def run(ctx):
                     readcheck.check_ops(ctx, model, s, ops, props=('C07',), cold=True, tag='legacy-blob' if blob else 'legacy')
                 finally:
                     s.close()
+        # K: virtual files beyond 4 GiB, blob backend, preload of a section beyond 256 MiB: byte ranges fetched vs the model
+        from .. import hugecheck
+        hugecheck.run(ctx, model, gen.rng_for(ctx.seed, 'c07-huge'))
     finally:
         model.close()
     # K: the header-read state machine (Model/HeaderReads): the range reads every header / tracefield look-up issues (four
